@@ -35,6 +35,10 @@ type ReasmCase struct {
 	Types   []int    `json:"types"`
 	Records [][]Frag `json:"records"`
 	Repush  bool     `json:"repush"` // after everything was delivered, push all records again
+	// SafetyOnly: the fragments are not a partition of every message (overlaps or gaps, fuzz target
+	// only), so "every message surfaces" is not asserted - only that nothing wrong, incomplete or
+	// extra surfaces.
+	SafetyOnly bool `json:"safetyonly,omitempty"`
 }
 
 func body(msg, n int) []byte {
@@ -300,7 +304,7 @@ func runReasm(c ReasmCase, r *pbt.R) {
 			next++
 		}
 	}
-	if next != len(c.Lens) {
+	if next != len(c.Lens) && !c.SafetyOnly {
 		sig := "C12|never-surfaced"
 		for _, rec := range c.Records {
 			for _, f := range rec {
